@@ -351,6 +351,10 @@ def k_write(sim, sock, data, what='write', partial=False):
             check = True
             continue
         end = off + min(free, total - off)
+        # the kernel has accepted (copied) bytes off..end in one go: segmentation below only spreads their *arrival*; should the
+        # writing process be killed at one of the yields in between, the rest of the accepted chunk is still delivered
+        # (Sim._terminate_proc flushes it) - only a write that is waiting for buffer space can be cut short by a kill
+        commit = t.pending_commit = [tx, mv, off, end, sock.label]
         while off < end:
             k = end - off
             if seg and k > 1 and sim.frng.random() < seg:
@@ -369,8 +373,12 @@ def k_write(sim, sock, data, what='write', partial=False):
             _put(sim, tx, mv[off:off + k])
             sim.ev('write', t.name, sock.label, k)
             off += k
+            commit[2] = off
+            if off >= end:
+                t.pending_commit = None
             if off < total:
                 sim.yield_('write-seg', deliver=False)
+        t.pending_commit = None
 
 
 def k_shutdown(sim, sock, how):
